@@ -680,7 +680,20 @@ fn state_bad(m: &M) -> bool {
     }
     let mut back: Vec<&String> = m.keys().rev().collect();
     back.reverse();
-    back != ks
+    if back != ks {
+        return true;
+    }
+    // iterator lengths / size hints (delegate_iterator!), Clone, clone_from into a map made by with_capacity
+    let n = m.len();
+    if m.keys().len() != n || m.values().len() != n || m.iter().size_hint() != (n, Some(n)) || m.values().size_hint() != (n, Some(n)) {
+        return true;
+    }
+    let c = m.clone();
+    let mut d = M::with_capacity(n % 3);
+    d.insert("zz-stale".to_string(), Value::Null);
+    d.clone_from(m);
+    let e = show_entries(m.iter());
+    c != *m || d != *m || show_entries(c.iter()) != e || show_entries(d.iter()) != e || c.into_iter().len() != n
 }
 
 // ---------------------------------------------------------------- recording hasher
